@@ -518,7 +518,7 @@ def sym_scenarios(impl, rng, spec_group):
 
 def check_sym(ctx, files: set[str] | None = None) -> dict:
     g, errors = pykern.translate_all()
-    specs = [k for k in pykern.SYM_KERNELS if files is None or k.file in files]
+    specs = [k for k in pykern.SYM_KERNELS if not k.loop and (files is None or k.file in files)]
     summary = ctx.extra.setdefault('kernels', {})
     sm = summary.setdefault('symbolic', {'kernels': 0, 'points': 0, 'mismatches': 0, 'untranslatable': {}})
     for k in specs:
@@ -655,3 +655,183 @@ def traced_call_code(code, fn, args, kwargs, watch):
         sys.settrace(old)
     hist['$final'] = final
     return res, hist
+
+
+# --------------------------------------------------------------------------- loop-body kernels (SymKernel.loop)
+def _loop_first_line(k) -> tuple[int, int]:
+    """(first line of the function, first line of the body of its first top-level `for … in range(…)`), from the source AST"""
+    import ast
+
+    mod = pykern.Module.get(k.file)
+    cname, mname = k.func.split('.')
+    fn = mod.method(k.cls or cname, mname)[1]
+    for st in fn.body:
+        if isinstance(st, ast.For) and isinstance(st.iter, ast.Call) and getattr(st.iter.func, 'id', None) == 'range':
+            return fn.lineno, st.body[0].lineno
+    raise LookupError(f'{k.func}: no range loop')
+
+
+def _snap_obj(o):
+    """numeric attributes of a point / performance record, copied"""
+    out = {}
+    names = getattr(o, '__dataclass_fields__', None) or getattr(o, '__dict__', None) or {}
+    for n in list(names):
+        try:
+            v = getattr(o, n)
+        except Exception:
+            continue
+        if _numeric(v) and np.ndim(v) == 0:
+            out[n] = float(v)
+    # containers' points expose their fields through __getattr__: ask for the known trajectory fields too
+    for n in ('fuel_flow', 'aircraft_mass', 'fuel_mass', 'ground_distance', 'altitude', 'flight_level', 'rate_of_climb',
+              'flight_time', 'latitude', 'longitude', 'azimuth', 'heading', 'true_airspeed', 'ground_speed'):
+        if n not in out:
+            try:
+                v = getattr(o, n)
+                if v is not None and _numeric(v) and np.ndim(v) == 0:
+                    out[n] = float(v)
+            except Exception:
+                pass
+    return out
+
+
+def trace_loop(code, body_line: int, run, objs=('pt', 'perf', 'perf_end')):
+    """Runs `run()`; for every activation of `code` records the state at each arrival at `body_line` (= the start of one loop
+    iteration): numeric locals and the numeric attributes of the objects named in `objs`, plus `self`. Returns a list of
+    activations, each a list of snapshots."""
+    acts: list[list[dict]] = []
+
+    def local_for(act):
+        def local(frame, event, arg):
+            if event == 'line' and frame.f_lineno == body_line:
+                loc = frame.f_locals
+                s = {'$locals': {n: float(v) for n, v in loc.items() if _numeric(v) and np.ndim(v) == 0}, '$self': loc.get('self')}
+                for o in objs:
+                    if o in loc and loc[o] is not None:
+                        s[o] = _snap_obj(loc[o])
+                act.append(s)
+            return local
+        return local
+
+    def tracer(frame, event, arg):
+        if event == 'call' and frame.f_code is code:
+            act: list[dict] = []
+            acts.append(act)
+            return local_for(act)
+        return None
+
+    old = sys.gettrace()
+    sys.settrace(tracer)
+    try:
+        run()
+    finally:
+        sys.settrace(old)
+    return acts
+
+
+def check_loops(ctx, files: set[str] | None = None, flights: int = 6) -> dict:
+    """Validates the loop-body kernels: real flights are flown, the state of the running point, the performance records and the
+    locals are captured at the start of every iteration of the traced loop, and for every pair of consecutive iterations the
+    generated kernel (state before, inputs of that iteration) is compared with the state after."""
+    from harness import c0217_lib as L
+
+    g, errors = pykern.translate_all()
+    specs = [k for k in pykern.SYM_KERNELS if k.loop and (files is None or k.file in files)]
+    summary = ctx.extra.setdefault('kernels', {})
+    sm = summary.setdefault('loop_bodies', {'kernels': 0, 'points': 0, 'mismatches': 0, 'untranslatable': {}})
+    for k in specs:
+        if k.name in errors:
+            sm['untranslatable'][k.name] = errors[k.name]
+            ctx.broken_obligation(f'kernel translator: {errors[k.name]}')
+    present = set(ctx.driver.outs([{'op': 'kern.names'}])[0]['present']) if ctx.driver.available() else set()
+    groups: dict[str, list] = {}
+    for k in specs:
+        if k.name in errors:
+            continue
+        if k.name not in present:
+            ctx.broken_obligation(f'kernel {k.name} missing from the built driver (stale build?)')
+            continue
+        groups.setdefault(k.func, []).append(k)
+    _ensure_config()
+    rng = make_rng(ctx.pid, ctx.seed, 'loop-kernels')
+    import AEIC.trajectories.builders.legacy as legacy_mod
+
+    seen = set()
+    for func, ks in groups.items():
+        try:
+            _, body_line = _loop_first_line(ks[0])
+            code = _unwrap(getattr(legacy_mod.LegacyBuilder, func.split('.')[1])).__code__
+        except Exception as e:
+            ctx.diverge('kernel scenario', {'group': func}, f'{type(e).__name__}: {e}')
+            continue
+        done = 0
+        for _ in range(flights * 4):
+            if done >= flights:
+                break
+            case = L.gen_case(rng, n_choices=[3, 5, 7, 12])
+            case['iterate'] = False
+            try:
+                holder = {}
+                acts = trace_loop(code, body_line, lambda: holder.update(res=L.run_flight(case)))
+            except Exception as e:  # noqa: BLE001
+                ctx.count('loop_scenario_error:' + type(e).__name__)
+                continue
+            if not holder.get('res', {}).get('ok'):
+                ctx.count('loop_scenario_refused')
+                continue
+            done += 1
+            for act in acts:
+                for before, after in zip(act, act[1:]):
+                    _compare_iteration(ctx, g, ks, before, after, sm, seen)
+    sm['kernels'] = len(seen)
+    ctx.count('loop_kernel_points', sm['points'])
+    return sm
+
+
+def _compare_iteration(ctx, g, ks, before, after, sm, seen):
+    selfobj = after.get('$self')
+    for k in ks:
+        # values an iteration reads: the running point as it was at the start of the iteration; the records and locals the
+        # iteration itself computed are still bound when the next iteration starts
+        def lookup(key):
+            root, _, rest = key.partition('.')
+            if root == 'pt':
+                return before['pt'][rest]
+            if root == 'self':
+                return _chain(selfobj, rest)
+            if root in after and isinstance(after[root], dict):
+                return after[root][rest]
+            raise KeyError(key)
+        try:
+            attrs = {key: f2u(float(lookup(key))) for key in g.attr_keys.get(k.name, [])}
+            xs = []
+            cut_attr_inv = {v: kk for kk, v in k.cut_attr.items()}
+            for i in k.inputs:
+                name = i if isinstance(i, str) else i[0]
+                if name in cut_attr_inv:                       # e.g. ground_speed = pt.ground_speed as this iteration set it
+                    root, _, rest = cut_attr_inv[name].partition('.')
+                    xs.append(f2u(float(after[root][rest])))
+                elif name in before['$locals'] and name in ('i',):   # the loop variable of THIS iteration
+                    xs.append(f2u(before['$locals'][name]))
+                else:
+                    xs.append(f2u(after['$locals'][name]))
+            tgt = k.target
+            if '.' in tgt:
+                root, _, rest = tgt.partition('.')
+                want = float(after[root][rest])
+            else:
+                want = float(after['$locals'][tgt])
+        except Exception as e:  # noqa: BLE001
+            ctx.diverge(f'kernel {k.name}', {'kernel': k.name}, f'loop state not observable: {type(e).__name__}: {e}')
+            continue
+        got = ctx.driver.outs([{'op': 'kern.eval', 'name': k.name, 'attrs': attrs, 'pts': [{'x': xs, 'b': []}]}])[0]
+        have = u2f(got[0])
+        seen.add(k.name)
+        sm['points'] += 1
+        ctx.evaluations += 1
+        if not close(want, have, RTOL, 1e-300):
+            sm['mismatches'] += 1
+            if sm['mismatches'] <= 5:
+                ctx.diverge(f'kernel {k.name} (one iteration of the loop of {k.file}:{k.func}, {k.target}) vs implementation',
+                            {'kernel': k.name, 'attrs': {kk: u2f(v) for kk, v in attrs.items()}, 'x': [u2f(x) for x in xs]},
+                            f'implementation {want!r} vs translated kernel {have!r}')
